@@ -26,6 +26,15 @@ RULE = ("base = 0-10 lines over a 10-line alphabet plus marker-looking lines "
         "/ interesting_files / uncommitted THIS / a rename on one side / file "
         "in a sub-directory / odd file names; merge types merge3 (exact "
         "oracle), weave and lca (weak oracle); follow-up resolve action. "
+        "One case in eight has no BASE text (the file is added under the "
+        "same file id on both sides, or the given BASE revision predates "
+        "it); a second file changed on both sides that merges cleanly may "
+        "accompany the main file (its file id is drawn so that it is merged "
+        "before or after it); resolve acts on the path or on all conflicts, "
+        "optionally after the user removed the BASE helper. Kind "
+        "'contents-conflicts' drives the other anchored resolution code "
+        "(ContentsConflict): binary file changed on both sides, or modified "
+        "on one side and deleted on the other, then take_this / take_other. "
         "Lines *starting* with the internal sentinel are generated only by "
         "the separate low-budget kind 'sentinel'. Non-trivial: the reference "
         "merge has a conflict region, or it is clean and THIS, OTHER, BASE are "
@@ -605,12 +614,12 @@ def gen_contents(draw):
 def kinds(tier):
     ks = [
         Kind("merge3", run, strategy=gen_case(("merge3",)),
-             examples={"quick": 1200, "thorough": 40000}),
+             examples={"quick": 1600, "thorough": 40000}),
         Kind("history-merges", run, strategy=gen_case(("weave", "lca")),
              examples={"quick": 240, "thorough": 8000}),
         Kind("sentinel", run, strategy=gen_case(("merge3",), sentinel=True),
              examples={"quick": 80, "thorough": 800}),
         Kind("contents-conflicts", run_contents, strategy=gen_contents(),
-             examples={"quick": 120, "thorough": 2000}),
+             examples={"quick": 200, "thorough": 2000}),
     ]
     return ks
